@@ -493,6 +493,9 @@ class Policy(object):
 		if not include_raw_materials:
 			return OQ
 		else:
+			# Validate product. (prod_ind is not set above for fixed-quantity policies or if inventory_position is provided.)
+			_, prod_ind = self.node.validate_product(product)
+
 			# Initialize returned dict with FG order quantity.
 			OQ_dict = {None: {None: OQ}}
 
